@@ -16,22 +16,31 @@ void h_do_handle_deferred(void){
     int inv=0; for(int i=0;i<g_nlog;i++) inv += (g_log[i]==t);
     __CPROVER_assert(q<=1, "C05.no-deferred-occurrence-duplicated");
     __CPROVER_assert(q==1 || inv>=1, "C05.deferred-occurrence-leaves-the-queue-only-by-being-dispatched"); }
+  /* (d) the new cycle retries every pending occurrence, and the first attempts come in arrival order */
+  int prev_first=-1;
+  for(int t=0;t<QN;t++) if (t<n) { int first=-1; for(int i=g_nlog-1;i>=0;i--) if (g_log[i]==t) first=i;
+    __CPROVER_assert(first>=0, "C05.every-pending-deferred-occurrence-is-retried-in-a-new-cycle");
+    __CPROVER_assert(first>prev_first, "C05.deferred-occurrences-are-retried-oldest-first"); prev_first=first; }
+  /* (e) what is still pending was re-evaluated after the last handled event and carries the next cycle's number */
+  int last_handled=-1; for(int i=0;i<g_nlog;i++) if (g_res[i]==HANDLED_TRUE) last_handled=i;
+  for(int i=0;i<h.m_deferred_events_queue.n;i++) { int last=-1; for(int k=0;k<g_nlog;k++) if (g_log[k]==h.m_deferred_events_queue.a[i].first) last=k;
+    __CPROVER_assert(last>last_handled, "C05.pending-occurrences-are-re-evaluated-after-every-handled-event");
+    __CPROVER_assert(h.m_deferred_events_queue.a[i].second==(char)(h.m_cur_seq+1), "C05.pending-occurrences-wait-for-the-next-cycle"); }
 }
 '''
 for be in BACKS:
     SM = be + '/state_machine.hpp'
     SC = ['struct handle_defer_helper <']
     body_rw = [
-        dict(name='REFLOC', pat='char & cur_seq = m_events_queue . m_cur_seq ;', rep='char * cur_seq = & m_events_queue -> m_cur_seq ;', min=1, max=1),
+        dict(name='REFLOC', pat='char & cur_seq = m_events_queue . m_cur_seq ;', rep='', min=1, max=1),   # the reference local is the macro cur_seq of the spec file
         dict(name='CONT-empty', pat='m_events_queue . m_deferred_events_queue . empty ( )', rep='dq_empty ( & m_events_queue -> m_deferred_events_queue )', min=1, max=1),
         dict(name='CONT-front', pat='deferred_events_queue_t :: value_type & pair = m_events_queue . m_deferred_events_queue . front ( ) ;', rep='pair_t * pair = dq_front ( & m_events_queue -> m_deferred_events_queue ) ;', min=1, max=1),
-        dict(name='REF-pair', pat='pair . $1', rep='pair -> $1', min=2, max=2),
-        dict(name='REF-cur_seq', pat='( cur_seq != pair', rep='( * cur_seq != pair', min=1, max=1),
-        dict(name='CONT-pop', pat='m_events_queue . m_deferred_events_queue . pop_front ( )', rep='dq_pop_front ( & m_events_queue -> m_deferred_events_queue )', min=1, max=1),
-        dict(name='INVOKE-next', pat='next ( ) ;', rep='invoke_deferred ( next ) ;', min=1, max=1),
+        dict(name='REF-pair', pat='pair . $1', rep='pair -> $1', min=0, max=6),
+        dict(name='CONT-pop', pat='m_events_queue . m_deferred_events_queue . pop_front ( )', rep='dq_pop_front ( & m_events_queue -> m_deferred_events_queue )', min=0, max=2),
+        dict(name='INVOKE-next', pat='next ( )', rep='invoke_deferred ( next )', min=0, max=2),
         dict(name='STL-stable_sort', pat='stable_sort ( m_events_queue . m_deferred_events_queue . begin ( ) , m_events_queue . m_deferred_events_queue . end ( ) , sort_greater ( ) ) ;', rep='std_stable_sort ( & m_events_queue -> m_deferred_events_queue ) ;', min=1, max=1),
         dict(name='STL-for_each', pat='for_each ( m_events_queue . m_deferred_events_queue . begin ( ) , m_events_queue . m_deferred_events_queue . end ( ) , set_sequence ( $*A ) ) ;', rep='std_for_each_set ( & m_events_queue -> m_deferred_events_queue , $*A ) ;', min=1, max=1),
-        dict(name='recursive-member-call', pat='do_handle_deferred ( true )', rep='do_handle_deferred ( m_events_queue , true )', min=0, max=1),
+        dict(name='recursive-member-call', pat='do_handle_deferred (', rep='do_handle_deferred ( m_events_queue ,', min=0, max=2),
         dict(name='member', pat='m_events_queue . m_cur_seq', rep='m_events_queue -> m_cur_seq', min=1),
     ]
     if be == 'back11':
